@@ -30,6 +30,9 @@ def gen_random(R, count, nvmax):
         if kind < 0.17 and nvmax >= 7:
             nets.append(flowlib.maxsize_backflow(R.rng))
             continue
+        if kind < 0.21:
+            nets.append(flowlib.int32_large(R.rng, R.rng.randint(2, nvmax)))
+            continue
         nv = R.rng.randint(2, nvmax)
         dens = R.rng.choice([0.2, 0.4, 0.7, 1.0])
         caps = R.rng.choice([[0, 1, 2], [1, 2, 3, 5, 8], [1], [0, 1, flowlib.MAXSIZE], [1, 7, 20, 50]])
